@@ -214,6 +214,7 @@ func runC12(t *rapid.T) {
 	}
 	res := read(c, p)
 	core.Steps(res.rd.Reads)
+	core.Event(c.Doc, fmt.Sprint(res.rd.Boundary), res.rd.Reads, fmt.Sprint(res.fr), res.panicky)
 	tr := trace{Case: c, Plan: p, Reads: res.rd.Reads}
 
 	// probes: where did read boundaries fall?
